@@ -117,11 +117,10 @@ func Load(cfg LoadConfig) (*Program, error) {
 		if !p.isTarget(pkg) {
 			continue
 		}
-		g, _ := pkg.Members["VerifStubs"].(*ssa.Global)
-		if g == nil {
+		initFn := pkg.Func("init")
+		if initFn == nil {
 			continue
 		}
-		initFn := pkg.Func("init")
 		for _, b := range initFn.Blocks {
 			for _, in := range b.Instrs {
 				mu, ok := in.(*ssa.MapUpdate)
@@ -129,7 +128,11 @@ func Load(cfg LoadConfig) (*Program, error) {
 					continue
 				}
 				k, ok := mu.Key.(*ssa.Const)
-				if !ok {
+				if !ok || !isString(k.Type()) {
+					continue
+				}
+				name, _ := constValue(k).(string)
+				if !strings.HasPrefix(name, "stub:") {
 					continue
 				}
 				mi, ok := mu.Value.(*ssa.MakeInterface)
@@ -140,7 +143,7 @@ func Load(cfg LoadConfig) (*Program, error) {
 				if !ok {
 					continue
 				}
-				name := constValue(k).(string)
+				name = strings.TrimPrefix(name, "stub:")
 				p.stubs[name] = fn
 				p.stubSrc[fn] = name
 			}
